@@ -8,7 +8,8 @@ rigidity m_l so stiff, intermediate and soft bodies are equally likely):
   (+ the three unimplemented combinations, which must raise NotImplementedError), nondimensionalize
   T/F, 20..200 slices, r0/R 10^[-2.5,-1] (Takeuchi: <= 0.03, see C04's known finding), rtol 10^[-9,-6] (RK23: 10^[-7,-4]),
   atol = 1e-4 rtol, K = 10^[6,9] * max(|mu|, rho g R), omega^2 R/g in 10^[-12,-7] (10^[-8,-5] for
-  dynamic/incompressible Kamata).
+  dynamic/incompressible Kamata); `solve_for` in {(tidal), (tidal, loading), (loading, tidal), (free, tidal, loading)} - the tidal
+  entry is the one compared.
 
 Oracle: k_l = 3/(2(l-1))/(1+m_l), h_l = (2l+1) k_l/3, l_l = k_l/l, complex m_l.
 Each case is solved at rtol and rtol/100; delta = max|love - love_tight| is the measured
@@ -73,6 +74,8 @@ def strategy(tier):
         'nondim': st.booleans(), 'n': st.integers(20, 200),
         'logr0': st.floats(-2.5, -1.0), 'logrtol': st.floats(-9.0, -6.0),
         'logKf': st.floats(6.0, 9.0), 'u_w': st.floats(0.0, 1.0),
+        # the tidal numbers must come out the same when other solution types are solved in the same call
+        'solve_for': st.sampled_from([['tidal'], ['tidal'], ['tidal', 'loading'], ['loading', 'tidal'], ['free', 'tidal', 'loading']]),
     })
 
 
@@ -80,12 +83,13 @@ def fixed_cases(tier):
     out = []
     for cfg in CONFIGS:
         out.append({'logR': 6.5, 'logrho': 3.5, 'l': 2, 'logm': 0.0, 'arg': 0.3, 'method': 'DOP853', 'config': cfg,
-                    'nondim': True, 'n': 80, 'logr0': -2.0, 'logrtol': -8.0, 'logKf': 8.0, 'u_w': 0.5})
+                    'nondim': True, 'n': 80, 'logr0': -2.0, 'logrtol': -8.0, 'logKf': 8.0, 'u_w': 0.5,
+                    'solve_for': ['loading', 'tidal'] if cfg.endswith('kamata') else ['tidal']})
     return out
 
 
 def required_labels(tier):
-    return ['cfg:' + c for c in CONFIGS] + ['method:RK23', 'method:RK45', 'method:DOP853', 'nondim:True', 'nondim:False']
+    return ['cfg:' + c for c in CONFIGS] + ['solve_for:1', 'solve_for:2', 'solve_for:3', 'method:RK23', 'method:RK45', 'method:DOP853', 'nondim:True', 'nondim:False']
 
 
 def in_domain(c):
@@ -93,7 +97,7 @@ def in_domain(c):
         return (5 <= c['logR'] <= 8 and 2.7 <= c['logrho'] <= 4.3 and 2 <= c['l'] <= 10 and -2 <= c['logm'] <= 3
                 and 0 <= c['arg'] <= 1.5 and 20 <= c['n'] <= 200 and -2.5 <= c['logr0'] <= -1 and -9 <= c['logrtol'] <= -6
                 and 6 <= c['logKf'] <= 9 and 0 <= c['u_w'] <= 1 and c['config'] in CONFIGS
-                and c['method'] in ('RK23', 'RK45', 'DOP853'))
+                and c['method'] in ('RK23', 'RK45', 'DOP853') and 'tidal' in c.get('solve_for', ['tidal']))
     except Exception:
         return False
 
@@ -121,7 +125,7 @@ def build(case):
         rtol *= 100.0      # 3rd order: rtol/100 = 1e-11 would need > 1e6 steps; RK23 is exercised at 1e-7..1e-4
     spec = rc.homogeneous_spec(R, rho, mu, K, l, freq, n=int(case['n']), r0_frac=r0, static=static, incomp=incomp,
                                use_kamata=kamata, method=case['method'], rtol=rtol, atol=rtol * 1e-4,
-                               nondim=bool(case['nondim']))
+                               nondim=bool(case['nondim']), solve_for=list(case.get('solve_for', ['tidal'])))
     return spec, dict(R=R, rho=rho, l=l, mu=mu, mu_abs=mu_abs, g=g, K=K, w2=w2, rtol=rtol, m_abs=m_abs)
 
 
@@ -144,8 +148,10 @@ def evaluate(case):
         s2, _ = rc.solve(spec, arrays=arrays, rtol=q['rtol'] / 100.0, atol=q['rtol'] * 1e-6)
     if not (s1.success and s2.success):
         return discard('solver_failed', labels)
-    love1 = np.asarray(s1.love)[0]
-    love2 = np.asarray(s2.love)[0]
+    ti = list(case.get('solve_for', ['tidal'])).index('tidal')
+    labels.append('solve_for:%d' % len(case.get('solve_for', ['tidal'])))
+    love1 = np.asarray(s1.love)[ti]
+    love2 = np.asarray(s2.love)[ti]
     delta = float(np.max(np.abs(love1 - love2)))
     if not np.isfinite(delta) or delta > 1e-4:
         return discard('unconverged', labels)
